@@ -38,8 +38,8 @@ BUILT = {
          "DESIGN.md section 5 C17"),
  "C18": ("exploration",
          "For every struct and every variant of every emitted non-generic item of generated registries (and of the full Polkadot registry under four settings) the public composite API (create_composite_ir_kind + CompositeIR::new + upcast_composite) is called and the resulting struct is parsed and compared with the registry field list by the C01 shape oracle, with the tokens/compact markers of the same variant in the emitted enum, and with the derive/attribute model (global only; CompactAs iff configured and exactly one unsigned field <= 128 bits, Cow transparent, boxed integer accepted either way).",
-         "Byte-level equality of struct encoding and variant payload follows from shape equality (same oracle as C01).",
-         "proptest-driven tape generator + differential oracle (registry field list vs interpreted standalone struct vs the enum's own variant) + derive-set model",
+         "Byte-level clause: a rustc stage compiles the standalone structs of a batch of generated registries inside the generated module with parity-scale-codec derives and decodes/re-encodes the payloads of valid enum encodings (encoding minus the index byte) from an independent SCALE value encoder; with insert_codec_attributes off the shape clause is not evaluated (documented behaviour of the generator).",
+         "proptest-driven tape generator + differential oracle (registry field list vs interpreted standalone struct vs the enum's own variant) + derive-set model + compile-and-round-trip stage under rustc",
          "DESIGN.md section 5 C18"),
  "C05": ("exploration",
          "Coincidence-free generated programs of (generic) definitions in nested modules with 1-3 instantiations each are lowered and generated in lowering order and in two random permutations; a reference translator written from the property text maps each source definition to the expected item (non-skipped parameters in declaration order, source field types under the documented normalisations, one trailing marker naming exactly the otherwise unused parameters) and the emitted item must equal it up to a consistent renaming of the generic parameters.",
